@@ -163,7 +163,7 @@ CHECKS["C17"] = {
     "level": "exploration",
     "engine": "enum",
     "technique": "bounded-exhaustive enumeration of configurations, instants (virtual clock) and single-character mutations against an independent reference of the REST credential scheme",
-    "rule": "Engine C in synctest bubbles (virtual clock, exact to the ns): every (secret in {'', 's', 32 B}) x (user in {'', 'u', 'a:b', non-ASCII}; none for the plain generator) x (realm in {'', 'r', 'pion.ly'}) "
+    "rule": "Engine C in synctest bubbles (virtual clock, exact to the ns): every (secret in {'', 's', 32 B}) x (user in {'', 'u', 'a:b', non-ASCII}; none for the plain generator) x (realm in {'', 'R.Example' (mixed case), 'pion.ly', 127 and 280 bytes}) "
             "x 14 durations (negative, zero, sub-second, 1 s .. 100 d, stamps > 2^31) x generation phase {.000,.500,.999} x both generator/handler pairs; generator output compared with a reference written from "
             "draft-uberti-behave-turn-rest (HMAC-SHA1/base64); handler called at every second boundary +-1 ms in [stamp-3, stamp+4] (thorough +-30 s): ok <=> now.Unix() <= stamp, key = MD5(user:realm:pass), "
             "and a wire-built Allocate signed with the generated password verifies under the returned key; every single-rune substitution/deletion/insertion over {0,9,:,+,-,a,space} of username, password and both; "
@@ -282,12 +282,13 @@ CHECKS["C16"] = {
             "byte sequences in both directions, nothing echoed, close propagates; duplicate Connect -> 446 and a further request is still served; after every event relay-side connections == model, AllocationCount, relay "
             "listeners; (thorough) also with the deny-B operator policy: refused target never dialled. "
             "Part udp-control: TCP allocations made over a datagram control channel (the server accepts them): Connect, inbound peer connections, ConnectionBind requests sent on that control channel (refused; they must change nothing: "
-            "the connection is closed when its 30 s are over), peer closes, Refresh 0, clock. Part genconn: the bundled generators (static, range, pass-through) x tcp4/tcp6 x wildcard/specific listen address x relay address equal to / different from the default source address: "
-            "AllocateConn called as the allocation manager calls it reaches one and two peers from exactly the advertised relayed address and port, and the relay listener still accepts afterwards.",
+            "the connection is closed when its 30 s are over), peer closes, Refresh 0, clock. Part ipv6: Connect, inbound connections (truthful ConnectionAttempt attribution), ConnectionBind and bytes over an IPv6 listener, IPv6 TCP allocation and IPv6 peers, depth 3/4; genconn: the bundled generators (static, range, pass-through) x tcp4/tcp6 x wildcard/specific listen address x relay address equal to / different from the default source address: "
+            "AllocateConn called as the allocation manager calls it reaches one and two peers from exactly the advertised relayed address and port, and the relay listener still accepts afterwards. Part sched (Engine B): two ConnectionBinds of one id, a bind at the 30 s deadline, and a bound connection carrying data in both directions at once over plain net.Conns (as TLS connections are: io.Copy really uses its buffers) - each end reads exactly what the other wrote.",
     "parts": [A("vtx", "./checks/c16", "TestC16", budget={"quick": 120, "thorough": 1800}),
               A("sched", "./checks/bsem", "TestC16Sched", overlay=True, gomaxprocs=1, budget={"quick": 90, "thorough": 1500}),
               A("client-e2e", "./checks/c16", "TestC16ClientE2E", budget={"quick": 90, "thorough": 900}),
               A("udp-control", "./checks/c16", "TestC16UDPControl", budget={"quick": 90, "thorough": 900}),
+              A("ipv6", "./checks/c16", "TestC16V6", budget={"quick": 60, "thorough": 600}),
               A("genconn", "./checks/c16", "TestC16GenConn", nshards=1, budget={"quick": 60, "thorough": 60})],
 }
 
